@@ -7,13 +7,17 @@ FILE = 'src/engine/engine_ray.c'
 
 def main():
     chk = Check('C16')
-    chk.timeout = 30 if chk.tier == 'quick' else 300
+    chk.timeout = 60 if chk.tier == 'quick' else 300
     chk.unit(FILE, 'mj_ray', ray.MJ_RAY, 'math', 'fp')
     chk.unit(FILE, 'ray_quad', ray.QUAD, 'math', 'real', check_arith=False)
     chk.unit(FILE, 'ray_sphere', ray.QUAD, 'math', 'real', check_arith=False)
     chk.unit(FILE, 'ray_eliminate', ray.ELIMC, 'math', 'fp')
     chk.unit(FILE, 'ray_plane', ray.PLANE, 'math', 'real', check_arith=False)
+    # capsule: ray_quad against the stronger contract its callers need (both roots stored, every real root is one of them), then
+    # ray_capsule modularly (ray_quad / ray_sphere by contract, ray_map inline), one obligation set per path
+    chk.unit(FILE, 'ray_quad', {'ray_quad': ray.QUAD_ROOTS, '__auto_inline__': True, '__no_merge__': True}, 'math', 'real', prefix='[roots]', check_arith=False)
+    chk.unit(FILE, 'ray_capsule', ray.CAPSULE, 'math', 'real', check_arith=False)
     chk.assumptions |= {'per-geom ray routines are pure functions of the geom index (ghost function); mj_ray is proved for normal == NULL',
-                        'ray_quad / ray_sphere / ray_plane over the reals'}
-    chk.out_of_reach += ['plane: proved for normal == NULL', 'capsule / ellipsoid / cylinder / box / mesh / hfield / SDF ray routines', 'mj_multiRay (spherical-angle pruning), mju_rayTree, flex and skin rays']
+                        'ray_quad / ray_sphere / ray_plane / ray_capsule over the reals (sqrt is the exact non-negative root); ray_capsule proved for normal == NULL'}
+    chk.out_of_reach += ['plane: proved for normal == NULL', 'capsule: that the reported hit is the NEAREST surface point and that -1 means no hit (attempted: 73 of 123 path obligations time out in nonlinear real arithmetic); proved: the reported point lies on the surface', 'ellipsoid / cylinder / box / mesh / hfield / SDF ray routines', 'mj_multiRay (spherical-angle pruning), mju_rayTree, flex and skin rays']
     return chk.finish()
